@@ -213,3 +213,11 @@ M("c03-state-before-filter", "C03,C07", "break", (S, "        if (\n            
 M("c03-unicast-flag-ignored", "C03", "break", (S, "        if not sdhdr.flag_unicast:", "        if False:"))
 M("c03-option-loop-no-progress", "C03", "break", (H, "            option, options_buffer = SOMEIPSDOption.parse(options_buffer)\n            options.append(option)", "            option, _unused = SOMEIPSDOption.parse(options_buffer)\n            options.append(option)"))
 M("c03-twin-guard-order", "C03,C01", "benign", (H, "    if len(buf) < fmt.size:\n        raise IncompleteReadError(", "    if not len(buf) >= fmt.size:\n        raise IncompleteReadError("))
+
+# ---------------------------------------------------------------- C04
+M("c04-auto-subscriber-does-not-subscribe", "C04", "break", (S, "        self.subscriber.subscribe_eventgroup(eventgroup, source)", "        pass"))
+M("c04-unsubscribe-key-mismatch", "C04", "break", (S, "        self.subscriber.stop_subscribe_eventgroup(eventgroup, source)", "        self.subscriber.stop_subscribe_eventgroup(eventgroup, service)"))
+M("c04-announcer-not-told-about-reboot", "C04,C07", "break", (S, "        self.subscriber.reboot_detected(addr)\n        self.discovery.reboot_detected(addr)\n        self.announcer.reboot_detected(addr)", "        self.subscriber.reboot_detected(addr)\n        self.discovery.reboot_detected(addr)"))
+M("c04-connection-lost-keeps-services", "C04,C05", "break", (S, "        self.found_services.stop_all()", "        pass"))
+M("c04-stop-keeps-subscriptions", "C04,C06", "break", (S, "        self.subscriptions.stop_all()\n", ""))
+M("c04-offers-ignored", "C04", "break", (S, "            if entry.sd_type == someip.header.SOMEIPSDEntryType.OfferService:\n                asyncio.get_event_loop().call_soon(\n                    self.discovery.handle_offer, entry, addr\n                )\n                continue", "            if entry.sd_type == someip.header.SOMEIPSDEntryType.OfferService:\n                continue"))
